@@ -53,6 +53,8 @@ fn check_env(rep: &Report, label: &str, c: &Corpus, sub: &Subject, x: &[u8], men
                 }
             }
             match ans {
+                // a sink that accepts nothing of a non-empty offer has failed (write_all reports WriteZero)
+                Ans::N(0) => errored = true,
                 Ans::N(n) => sink_len += n,
                 Ans::Intr => {}
                 Ans::Fail => errored = true,
@@ -61,6 +63,13 @@ fn check_env(rep: &Report, label: &str, c: &Corpus, sub: &Subject, x: &[u8], men
         if let Ev::Flush { ans: Ans::Fail, .. } = ev {
             errored = true;
         }
+    }
+    // "once an error is reported nothing further is written": when the call returns, every byte it handed to the sink has
+    // been followed by a successful flush -- a buffering sink (BufWriter, LineWriter, stdout) would otherwise write them
+    // AFTER the verdict. What the sink answers to that flush is its own business; the call has to be made.
+    if !errored && env.never_flushed_tail() {
+        rep.violation(&format!("{}/returned-with-unflushed-plaintext", label), mk(), format!("the call returned {} under [{}] without calling flush after the last plaintext it had written: a buffering sink delivers those bytes after the verdict", res.brief(), describe(env)));
+        return;
     }
     if res.is_ok() {
         match exp {
@@ -214,9 +223,100 @@ pub fn reader_leaves_cases(rep: &Report, tag: &str) {
     rep.extra("cli_reader_leaves_cases_4_chunks", json!(jobs.len()));
 }
 
+/// The ciphertext FILE grows while it is being decrypted: stdout is a pipe nobody reads, the program comes to rest in its
+/// blocked write after the first chunk(s); five bytes are appended to the input file; then the pipe is drained. Data
+/// follows the final chunk, so the run must not end with exit 0, and what it released is the plaintext or its
+/// authenticated prefix without the final chunk.
+fn cli_input_grows(rep: &Report) {
+    use crate::fx::Party;
+    use crate::proc::Scratch;
+    use std::io::{Read, Write};
+    use std::process::{Command, Stdio};
+    let seed = rep.seed;
+    const CS: usize = 65536;
+    let alice = Party::new(seed, "alice", "alicepw");
+    let bob = Party::new(seed, "bob", "bobpw");
+    let kr = crate::fx::keyring(&[(&alice, false), (&bob, true)]);
+    let p = plaintext(seed ^ 0x4c7, 5 * CS + 300);
+    let ch = vec![CS, CS, CS, CS, CS, 300];
+    let f = r::write_key_file(&alice.sk, &bob.pk, &derive32(seed, "grow-e"), &derive32(seed, "grow-p"), &p, &ch).unwrap();
+    let salt = derive32(seed, "grow-salt");
+    let q = r::write_pass_file_with_key(&r::pass_key(b"filepw", &salt), &salt, &p, &ch);
+    let jobs = [("key", &f), ("pass", &q)];
+    jobs.par_iter().for_each(|(mode, file)| {
+        rep.eval(1);
+        rep.nontrivial(format!("cli-input-grows-{}", mode).as_bytes());
+        let attempt = || -> Result<Option<String>, String> {
+            let sc = Scratch::new();
+            sc.write("kr.txt", kr.as_bytes());
+            sc.write("in.ktl", file);
+            let inpath = std::fs::canonicalize(sc.0.join("in.ktl")).map_err(|e| e.to_string())?;
+            let args: Vec<&str> = if *mode == "key" { vec!["decrypt", "in.ktl", "-t", "bob", "-k", "kr.txt", "--env-pass"] } else { vec!["password", "decrypt", "in.ktl", "--env-pass"] };
+            let mut child = Command::new(crate::proc::KESTREL).args(&args).env_clear().env("KESTREL_PASSWORD", if *mode == "key" { "bobpw" } else { "filepw" }).current_dir(&sc.0).stdin(Stdio::null()).stderr(Stdio::piped()).stdout(Stdio::piped()).spawn().map_err(|e| format!("spawn: {}", e))?;
+            let pid = child.id();
+            let read_pos = || -> Option<u64> {
+                for e in std::fs::read_dir(format!("/proc/{}/fd", pid)).ok()? {
+                    let e = e.ok()?;
+                    if std::fs::read_link(e.path()).ok().as_deref() == Some(inpath.as_path()) {
+                        let info = std::fs::read_to_string(format!("/proc/{}/fdinfo/{}", pid, e.file_name().to_string_lossy())).ok()?;
+                        return info.lines().find_map(|l| l.strip_prefix("pos:")).and_then(|v| v.trim().parse().ok());
+                    }
+                }
+                None
+            };
+            let t0 = std::time::Instant::now();
+            let (mut last, mut since, mut settled) = (None, std::time::Instant::now(), false);
+            while t0.elapsed().as_secs() < 15 {
+                std::thread::sleep(std::time::Duration::from_millis(20));
+                let now = read_pos();
+                if now != last {
+                    last = now;
+                    since = std::time::Instant::now();
+                } else if now.map(|v| v > 0 && (v as usize) < file.len()).unwrap_or(false) && since.elapsed().as_millis() >= 400 {
+                    settled = true;
+                    break;
+                }
+                if let Ok(Some(_)) = child.try_wait() {
+                    break;
+                }
+            }
+            if settled {
+                let mut fh = std::fs::OpenOptions::new().append(true).open(&inpath).map_err(|e| e.to_string())?;
+                fh.write_all(b"EXTRA").map_err(|e| e.to_string())?;
+            }
+            let mut so = child.stdout.take().unwrap();
+            let mut out = vec![];
+            let _ = so.read_to_end(&mut out);
+            let mut se = String::new();
+            let _ = child.stderr.take().unwrap().read_to_string(&mut se);
+            let st = child.wait().map_err(|e| e.to_string())?;
+            if !settled {
+                return Ok(Some("the program never came to rest in a blocked write".into()));
+            }
+            if st.success() {
+                return Err(format!("exit status 0 although five bytes follow the final chunk of the file it read ({} plaintext bytes released)", out.len()));
+            }
+            if out != p && out[..] != p[..5 * CS] {
+                return Err(format!("{} bytes released; expected the plaintext ({}) or its prefix without the final chunk ({})", out.len(), p.len(), 5 * CS));
+            }
+            Ok(None)
+        };
+        match attempt() {
+            Ok(None) => {}
+            Ok(Some(why)) => rep.extra(&format!("cli_input_grows_{}", mode), json!(format!("not judged: {}", why))),
+            Err(_) => {
+                if let Err(e) = attempt() {
+                    rep.violation(&format!("C04/cli/input-grows/{}", mode), json!({"kind":"cli","name":format!("input-grows-{}", mode)}), format!("kestrel {} decrypt of a 6-chunk FILE to which five bytes are appended while the program is blocked on its stdout pipe: {}", mode, e));
+                }
+            }
+        }
+    });
+}
+
 pub fn run(rep: &'static Report) {
     rep.set_rule("E-GRAPH: every state of the C03 edit graphs is decrypted by the real code into a recording sink and the write log is checked (each written range is authentic plaintext of chunks whose whole record has already been consumed and is authentic in place; Ok only on complete authentic input). E-ENV: decryption of authentic and tampered files under every fault at every call index and bounded short reads/writes, same predicate on the offered buffers. distinct_nontrivial counts unique graph states + minted words + distinct faulty executions");
     rep.rule_add("CLI level incl. a stdout reader that leaves after 0/1/4096 bytes.");
+    rep.rule_add("When the call returns, flush has been called after the last plaintext written (a buffering sink must not deliver after the verdict). CLI: five bytes appended to the input FILE while the program is blocked on its stdout pipe: no exit 0.");
     rep.rule_add("Counter boundaries: after 2^8 / 2^16 (thorough 2^20) authentic one-byte chunks only the record sealed for that position is accepted; records sealed for ~60 other positions are refused with exactly the authentic prefix released.");
     rep.assume("whether the final chunk is written before a trailing-data error is deliberately not constrained (both orders satisfy the statement)");
     rep.assume("authentic corpus files are written by REF; forgery resistance of the AEAD is assumed");
@@ -262,6 +362,7 @@ pub fn run(rep: &'static Report) {
     rep.extra("env_fault_inputs", json!(items.len()));
     counter_boundaries(rep);
     cli_level(rep);
+    cli_input_grows(rep);
     rep.add_distinct(rep.states.load(Ordering::Relaxed));
     rep.sample(json!({"graph":"key","state":"A with chunk 1 body bit flipped","expect":"exactly chunk 0 (2 bytes) written, after 198 source bytes were consumed; then Err"}));
     rep.sample(json!({"env":"key/authentic","tape":"write#1 -> accepts 1 of 2 bytes; write#2 -> Err(Other)","expect":"offered buffers are 'ab','b'; Err(IOWrite); nothing offered afterwards"}));
@@ -421,6 +522,7 @@ pub fn replay(rep: &'static Report, case: &Value) {
     if case["kind"] == "cli" {
         println!("  re-running the CLI-level part of C04");
         cli_level(rep);
+        cli_input_grows(rep);
         return;
     }
     if case["kind"] == "counter-boundary" {
